@@ -50,7 +50,23 @@ var hShapes = []*hShape{
 	sh(2, "a"),
 }
 
+func mirrorShape(s *hShape, fanout int) *hShape {
+	m := &hShape{value: map[int]string{}, child: map[int]*hShape{}}
+	for _, b := range s.buckets {
+		nb := fanout - 1 - b
+		m.buckets = append(m.buckets, nb)
+		if v, ok := s.value[b]; ok {
+			m.value[nb] = v
+		} else {
+			m.child[nb] = mirrorShape(s.child[b], fanout)
+		}
+	}
+	sort.Ints(m.buckets)
+	return m
+}
+
 type builtHamt struct {
+	shape   *hShape
 	st      *verifmodel.Store
 	ls      *ipld.LinkSystem
 	root    datamodel.Link
@@ -195,7 +211,13 @@ func buildHamtShape(which int, lg int) *builtHamt {
 	st := verifmodel.NewStore()
 	bh := &builtHamt{st: st, ls: st.LinkSystem(), lg: lg, path: map[string][]string{}, parent: map[string]string{}, under: map[string][]string{}, tab: &verifmodel.NameHashTable{}}
 	idx := 0
-	bh.root, _ = bh.build(hShapes[which], nil, nil, &idx)
+	bh.shape = hShapes[which]
+	if verifrt.Param("hi", 0) == 1 {
+		// the same shapes in the highest buckets of the fanout (bucket b -> fanout-1-b):
+		// with fanout 512 / 1024 the link-name prefixes have three hex digits and values >= 256
+		bh.shape = mirrorShape(bh.shape, 1<<uint(lg))
+	}
+	bh.root, _ = bh.build(bh.shape, nil, nil, &idx)
 	if !verifrt.Native() {
 		tab := bh.tab
 		verifrt.Replace("github.com/spaolacci/murmur3.New64", func() hash.Hash64 { return tab.New64() })
@@ -258,7 +280,19 @@ func VerifHamtReaderWellFormed() {
 			}
 		}
 	}
-	switch verifrt.Choose(5) {
+	switch verifrt.Choose(6) {
+	case 5: // the empty key (its real hash is 0: bucket 0 at every level) is never a member,
+		// whatever kind of link sits in the slots it is routed through
+		if !verifrt.Native() {
+			bh.tab.Set("", make([]byte, 8))
+		}
+		_, err := node.LookupByString("")
+		_, isNoField := err.(schema.ErrNoSuchField)
+		verifrt.Assert(isNoField, "lookup:non-member-not-found")
+		_, err = node.LookupBySegment(datamodel.PathSegmentOfString(""))
+		_, isNoField = err.(schema.ErrNoSuchField)
+		verifrt.Assert(isNoField, "lookup:non-member-not-found")
+		verifrt.Reach("empty-key")
 	case 3: // one node used for enumeration first, then by-name lookups of every member
 		if verifrt.Choose(2) == 0 {
 			iterateAll()
@@ -311,16 +345,24 @@ func VerifHamtReaderWellFormed() {
 		// exactly the shards on the probe's hash path are fetched: descend while the
 		// probe's bucket holds a sub-shard, stop at an empty bucket or a value link
 		var want []string
-		cur := hShapes[which]
+		cur := bh.shape
 		slot := 0
 		for d := 0; cur != nil; d++ {
-			b := verifrt.Concrete(chunkOf(probe, d, bh.lg))
+			// (comparisons against the occupied buckets only: with fanout 512 the probe's bucket
+			// has hundreds of admissible values when it lands in an empty one)
+			c := chunkOf(probe, d, bh.lg)
+			b := -1
+			for _, ob := range cur.buckets {
+				if c == ob {
+					b = ob
+				}
+			}
 			next, isChild := cur.child[b]
 			if !isChild {
 				break
 			}
 			// key of that child: shards are recorded in DFS pre-order
-			want = append(want, bh.shardKeyOf(hShapes[which], next, &slot))
+			want = append(want, bh.shardKeyOf(bh.shape, next, &slot))
 			cur = next
 		}
 		first := firstRequests(bh.st)
